@@ -13,6 +13,8 @@ Decides (on filepreprocessor::pathbuf_to_filetype_impl):
         condition that implies a non-empty suffix (each call strictly shortens the name).
   R16.5 junk trimming removes all leading/trailing junk characters (trim_*_matches over the
         documented sets), not just one.
+  R16.14 a constant length limit that process_path_tar puts on the whole member path admits every
+         path of up to PATH_MAX-1 (4095) bytes - a lower bound; no guard at all also passes.
 Does not decide: Path::extension semantics on odd names (trusted std).
 """
 import json
